@@ -104,6 +104,8 @@ pub fn main(tier: Tier, seed: u64) -> i32 {
         /// like Interleaved, but one coordination event is postponed until no other coordination
         /// event (`false`) or no other event at all (`true`) is enabled
         Starve(Ev, bool),
+        /// two postponed coordination events (thorough tier, small batches)
+        Starve2(Ev, Ev),
     }
     let mut jobs: Vec<(usize, Job)> = vec![];
     let mut bases = vec![];
@@ -162,6 +164,14 @@ pub fn main(tier: Tier, seed: u64) -> i32 {
                 }
                 Err(e) => rep.machinery(format!("interleaved base walk failed for {}: {e}", b.name)),
             }
+            if tier.is_thorough() && k <= 2 {
+                let evs: Vec<Ev> = jobs.iter().filter_map(|(j, job)| if *j == bi { if let Job::Starve(e, false) = job { Some(e.clone()) } else { None } } else { None }).collect();
+                for a in 0..evs.len() {
+                    for c in a + 1..evs.len() {
+                        jobs.push((bi, Job::Starve2(evs[a].clone(), evs[c].clone())));
+                    }
+                }
+            }
         }
         bases.push(Some(base));
     }
@@ -190,6 +200,11 @@ pub fn main(tier: Tier, seed: u64) -> i32 {
                 }
             }
             Job::Cancel { pol, party, at } => walk.injections.push((*at, Ev::Cancel { pol: *pol, party: *party })),
+            Job::Starve2(e1, e2) => {
+                walk.prefer = vec![];
+                policy = MsgPolicy::Explicit;
+                walk.starve = vec![e1.clone(), e2.clone()];
+            }
             Job::Starve(ev, past) => {
                 walk.prefer = vec![];
                 policy = MsgPolicy::Explicit;
@@ -229,7 +244,7 @@ pub fn main(tier: Tier, seed: u64) -> i32 {
             }
         }
         match job {
-            Job::Default | Job::Reverse | Job::Interleaved | Job::Starve(..) => {
+            Job::Default | Job::Reverse | Job::Interleaved | Job::Starve(..) | Job::Starve2(..) => {
                 // everything ran to completion: full budget, all stopped, every destination served once
                 for (p, permits) in snap.permits.iter().enumerate() {
                     if *permits != b.concurrency {
@@ -309,7 +324,7 @@ pub fn main(tier: Tier, seed: u64) -> i32 {
     rep.set("batches", json!(batches.iter().map(|b| b.name.clone()).collect::<Vec<_>>()));
     rep.set("max_simultaneous_leader_side_computations_seen", json!(max_seen));
     rep.exhaustive = Some(true);
-    rep.rule = "batches of k two-party policies with alternating leaders sharing each party's semaphore (quick k<=4, c in {1,2}; thorough k<=8, c<=3), without constants, with constants from both parties, from the follower only, from the leader only; with/without destinations: the default-order history, the reverse-preference history, the all-coordination-first history with explicit MPC messages and, around it, every single coordination event postponed until no other coordination event (or no event at all) is enabled; every single validate/run/consts RPC failed once (transport error instead of delivery), and cancels of one policy at spaced positions. Oracle: overlap of the MPC-traffic intervals of the computations a party leads <= concurrency; full budget and all stopped at the end of complete runs; after a failed RPC the policy ends at the caller with an error notification (if it has a destination) and its permit is back".into();
+    rep.rule = "batches of k two-party policies with alternating leaders sharing each party's semaphore (quick k<=4, c in {1,2}; thorough k<=8, c<=3), without constants, with constants from both parties, from the follower only, from the leader only; with/without destinations: the default-order history, the reverse-preference history, the all-coordination-first history with explicit MPC messages and, around it, every single coordination event postponed until no other coordination event (or no event at all) is enabled (thorough, batches of up to 2: every pair of coordination events postponed); every single validate/run/consts RPC failed once (transport error instead of delivery), and cancels of one policy at spaced positions. Oracle: overlap of the MPC-traffic intervals of the computations a party leads <= concurrency; full budget and all stopped at the end of complete runs; after a failed RPC the policy ends at the caller with an error notification (if it has a destination) and its permit is back".into();
     rep.assumptions = vec!["histories are walks around the default order, not all interleavings of the batch (the per-process canonical form does not merge across policies that share a semaphore)".into()];
     rep.finish()
 }
